@@ -3,13 +3,15 @@ import json, os
 from vlib import core
 
 THEOREMS = ["Props.C16." + t for t in [
-    "fuel_suffices", "mark_sound", "mark_exact", "always_kept", "kept_bodies_unchanged",
-    "kept_refs_kept", "services_nofilter"]]
+    "fuel_suffices", "mark_sound", "mark_exact", "always_kept", "consts_typedefs_reachable", "kept_bodies_unchanged",
+    "kept_refs_kept", "services_nofilter", "method_filter", "trim_resolves_partial",
+    "base_service_dropped", "not_idempotent_with_methods"]]
 
 PARTIAL = [
-    "trim_resolves: proved for type references and cross-file base services (trim_resolves_partial); false for a base service declared in the same included file as its heir — Props.C16.base_service_dropped is the machine-checked counterexample, replayed on TrimAST by the oracle class trim-error",
-    "trim_idempotent: proved as sweep-stability of the mark set (trim_idempotent_marks: a second traversal with the same marks deletes nothing more); full trim∘trim=trim is false with -m (oracle class not-idempotent) and is not proved without -m",
-    "method_filter: characterises marked functions of services visited by markService/traceExtendMethod; the regexp engine is the parameter Cfg.rx",
+    "trim_resolves: type references (kept_refs_kept) and, without -m, cross-file bases and same-file bases of root services (trim_resolves_partial) are proved; the full statement is false for a base service declared in the same included file as its heir - Props.C16.base_service_dropped is the decide-checked counterexample, reproduced on TrimAST by the oracle class trim-error",
+    "trim_idempotent: false with -m (Props.C16.not_idempotent_with_methods, oracle class not-idempotent); without -m it is not proved (oracle-checked on every generated case)",
+    "method_filter: only the direction 'every kept function matches a pattern under some father name' is proved; 'a named method of a root service remains' is oracle-only; regexp2 is the parameter Cfg.rx",
+    "wire_unchanged is stated at model level only (kept_bodies_unchanged: a kept struct-like is literally an original one)",
 ]
 
 
